@@ -61,10 +61,35 @@ def probes_for(r, names):
     return sorted(ps)
 
 
-def gen_program(names, workdir, tag):
-    """schema with one int field per name (+ an enum with the same symbols) and a program that parses `{"probe":7}` texts"""
+def pick_unions(r, names):
+    """names that become union / union vector fields: those whose own length or whose `<name>_type` length is a multiple of the
+    8-byte window first (their two dictionary entries then meet at a window boundary), plus a few random ones.
+    Returns {name: 'U' | 'V'}"""
+    pri = [n for n in names if len(n) % 8 == 0 or (len(n) + 5) % 8 == 0]
+    rest = [n for n in names if n not in pri]
+    r.shuffle(pri); r.shuffle(rest)
+    chosen = pri[:4] + rest[:2]
+    return {n: ("U" if i % 2 == 0 else "V") for i, n in enumerate(chosen)}
+
+
+def field_ids(names, unions):
+    """declaration order ids (a union value field has the id after its hidden type field)"""
+    ids, nxt = {}, 0
+    for n in names:
+        if n in unions: ids[n] = nxt + 1; nxt += 2
+        else: ids[n] = nxt; nxt += 1
+    return ids, nxt
+
+
+def gen_program(names, workdir, tag, unions=None):
+    """schema with one int (or union / union vector) field per name (+ an enum with the same symbols) and a program that parses
+    `{"probe":7}` / `{"probe_type":"A","probe":{"x":7}}` texts"""
+    unions = unions or {}
     fbs = "enum E:int { Zz0 = 0, %s }\n" % ", ".join("%s = %d" % (n, i + 1) for i, n in enumerate(names))
-    fbs += "table T { %s ev:E; zs:string; q:string; }\nroot_type T;\n" % " ".join("%s:int;" % n for n in names)
+    fbs += "table A { x:int; }\nunion Un { A }\n"
+    def decl(n):
+        return "%s:Un;" % n if unions.get(n) == "U" else "%s:[Un];" % n if unions.get(n) == "V" else "%s:int;" % n
+    fbs += "table T { %s ev:E; zs:string; q:string; }\nroot_type T;\n" % " ".join(decl(n) for n in names)
     open(os.path.join(workdir, tag + ".fbs"), "w").write(fbs)
     C = ['#include <stdio.h>', '#include <string.h>', '#include <stdlib.h>', '#include "%s_builder.h"' % tag, '#include "%s_json_parser.h"' % tag, '#include "%s_verifier.h"' % tag,
          'static int hv(int c) { return c <= \'9\' ? c - \'0\' : (c | 0x20) - \'a\' + 10; }',
@@ -79,10 +104,17 @@ def gen_program(names, workdir, tag):
          '  if (ret) { printf("u\\n"); continue; }',
          '  buf = flatcc_builder_finalize_aligned_buffer(&B, &size);',
          '  if (T_verify_as_root(buf, size)) { printf("unverifiable\\n"); flatcc_builder_aligned_free(buf); continue; }',
-         '  { T_table_t t = T_as_root(buf); int hit = -1, nh = 0;']
+         '  { T_table_t t = T_as_root(buf); int hit = -1, nh = 0, uhit = -1, nu = 0;']
     for i, nm in enumerate(names):
-        C.append('    if (T_%s(t) == 7) { hit = %d; ++nh; }' % (nm, i))
-    C += ['    if (T_q(t)) printf("Q%d\\n", (int)flatbuffers_string_len(T_q(t))); else if (T_zs(t)) printf("S%d\\n", (int)flatbuffers_string_len(T_zs(t))); else if (T_ev(t) != 0) printf("e%d\\n", (int)T_ev(t)); else if (nh == 1) printf("%d\\n", hit); else printf("none%d\\n", nh); }',
+        if unions.get(nm) == "U":
+            C.append('    if (T_%s_is_present(t) || T_%s_type(t) != 0) { ++nu; if (T_%s_type(t) == Un_A && T_%s(t) && A_x((A_table_t)T_%s(t)) == 7) uhit = %d; }' % (nm, nm, nm, nm, nm, i))
+        elif unions.get(nm) == "V":
+            C.append('    if (T_%s_is_present(t) || T_%s_type(t) != 0) { ++nu; if (T_%s_type(t) && T_%s(t) && flatbuffers_vec_len(T_%s_type(t)) == 1 && flatbuffers_vec_len(T_%s(t)) == 1 && '
+                     'Un_vec_at(T_%s_type(t), 0) == Un_A && A_x((A_table_t)flatbuffers_generic_vec_at(T_%s(t), 0)) == 7) uhit = %d; }' % (nm, nm, nm, nm, nm, nm, nm, nm, i))
+        else:
+            C.append('    if (T_%s(t) == 7) { hit = %d; ++nh; }' % (nm, i))
+    C += ['    if (nu) { if (nu == 1 && uhit >= 0 && nh == 0) printf("U%d\\n", uhit); else printf("ubad%d\\n", nu); }',
+          '    else if (T_q(t)) printf("Q%d\\n", (int)flatbuffers_string_len(T_q(t))); else if (T_zs(t)) printf("S%d\\n", (int)flatbuffers_string_len(T_zs(t))); else if (T_ev(t) != 0) printf("e%d\\n", (int)T_ev(t)); else if (nh == 1) printf("%d\\n", hit); else printf("none%d\\n", nh); }',
           '  flatcc_builder_aligned_free(buf); }',
           ' flatcc_builder_clear(&B); return 0; }']
     open(os.path.join(workdir, tag + ".c"), "w").write("\n".join(C) + "\n")
@@ -99,11 +131,13 @@ def run(ctx):
     fails, tie_breaks = [], []
     mlines, meta = [], []
     progs = []
+    # every second name set gets union and union vector fields (two dictionary entries each: <name> and <name>_type)
+    unions_of = {k: (pick_unions(r, sets[k]) if k % 2 == 1 or k in (4, 6) else {}) for k in range(len(sets))}
     def prepare(k):
         names = sets[k]
         d = os.path.join(ctx.work, "s%d" % k); os.makedirs(d, exist_ok=True)
         tag = "s%d" % k
-        gen_program(names, d, tag)
+        gen_program(names, d, tag, unions_of[k])
         rc, log = flatcc_generate(ctx, flatcc, os.path.join(d, tag + ".fbs"), d, opts=("-a", "--json-parser"))
         if rc != 0:
             return (k, None, "flatcc rejected the name-set schema: " + log[:300])
@@ -121,12 +155,22 @@ def run(ctx):
             fails.append("name set %d %s: %s" % (k, names[:5], err)); continue
         d = os.path.join(ctx.work, "s%d" % k); tag = "s%d" % k
         text = open(os.path.join(d, tag + "_json_parser.h")).read()
-        fdict = te.dict_sort(names + ["ev", "zs", "q"])
+        un = unions_of[k]
+        fdict = te.dict_sort(names + [n + "_type" for n in un] + ["ev", "zs", "q"])
         edict = te.dict_sort(names + ["Zz0"])
-        ids = {i: n for i, n in enumerate(names)}; ids[len(names)] = "ev"; ids[len(names) + 1] = "zs"; ids[len(names) + 2] = "q"
-        def h_table(h, kind):
+        fid, nxt = field_ids(names, un)
+        ids = {v: n for n, v in fid.items()}; ids[nxt] = "ev"; ids[nxt + 1] = "zs"; ids[nxt + 2] = "q"
+        def h_table(h, kind, ids=ids, fdict=fdict, un=un):
+            # union fields: the value entry and the `_type` entry call different runtime functions with the VALUE field's id
+            m = re.search(r"flatcc_json_parser_union(_type)?(_vector)?\(ctx, buf, end, \d+, (\d+),", h)
+            if m:
+                nm = ids.get(int(m.group(3)))
+                if nm is None or nm not in un or (un[nm] == "V") != bool(m.group(2)):
+                    raise te.TranslateError("union handler does not fit the schema: " + h[:160])
+                return fdict.index(nm + "_type" if m.group(1) else nm)
             m = re.search(r"flatcc_builder_table_add(?:_offset)?\(ctx->ctx, (\d+)", h)
             if not m: raise te.TranslateError("table field handler without table_add: " + h[:120])
+            if ids[int(m.group(1))] in un: raise te.TranslateError("scalar handler for a union field: " + h[:160])
             return fdict.index(ids[int(m.group(1))])
         def h_enum(h, kind):
             m = re.search(r"\*value = UINT64_C\((\d+)\)", h)
@@ -167,8 +211,19 @@ def run(ctx):
         if exe is None: return []
         probes = probes_for(r, names)
         texts, want = [], []
+        un = unions_of[k]
         for p in probes:
             idx = names.index(p) if p in names else None
+            if p in un:
+                tv, vv = ('"A"', '{"x":7}') if un[p] == "U" else ('["A"]', '[{"x":7}]')
+                texts.append(('{"%s_type":%s,"%s":%s}' % (p, tv, p, vv)).encode()); want.append("U%d" % idx)
+                texts.append(('{"%s":%s,"%s_type":%s}' % (p, vv, p, tv)).encode()); want.append("U%d" % idx)
+                texts.append(('{ %s_type : %s, %s : %s }' % (p, tv.replace('"', ''), p, vv.replace('"', ''))).encode()); want.append("U%d" % idx)
+                texts.append(('{"%s":7}' % p).encode()); want.append("u")
+                texts.append(('{"ev":"%s"}' % p).encode()); want.append("e%d" % (idx + 1))
+                continue
+            if p.endswith("_type") and p[:-5] in un:
+                continue      # a declared dictionary entry of its own (exercised through the union texts above)
             texts.append(('{"%s":7}' % p).encode()); want.append(str(idx) if idx is not None else "u")
             texts.append(('{ "%s" : 7 }' % p).encode()); want.append(str(idx) if idx is not None else "u")
             texts.append(('{%s:7}' % p).encode()); want.append(str(idx) if idx is not None else "u")
@@ -182,7 +237,8 @@ def run(ctx):
         texts.append(b'{"q":"\x7f"}'); want.append("Q1")
         texts.append(b'{"zs":"\xe9"}'); want.append("S1")
         texts.append(b'{"zs":"\xc3\xa9"}'); want.append("S2")
-        texts.append(('{"%s":7,"zs":"\xff"}' % names[0]).encode("latin1")); want.append("S1")
+        if names[0] not in unions_of[k]:
+            texts.append(('{"%s":7,"zs":"\xff"}' % names[0]).encode("latin1")); want.append("S1")
         if "ev" in names or "zs" in names or "q" in names:
             return []
         rc, out, err = run_lines(exe, [t.hex() for t in texts], timeout=600)
@@ -217,11 +273,11 @@ def run(ctx):
                             "8/16-byte prefixes and differing in the last byte of a window, random sets); for each, the table parser's and the enum parser's decision code "
                             "emitted by the current compiler is parsed into a Tree and VALIDATED (snd + cmp for every key: by the theorems this is exact dispatch for all "
                             "inputs); the tree is also compared structurally with the Lean model of the generator and evaluated on names and near misses; the real generated "
-                            "parser is run on the same names / near misses quoted, spaced, unquoted, as enum symbols, and at the very end of the buffer." % len(sets),
+                            "parser is run on the same names (int fields; in every second set some names are union / union-vector fields given type-first, value-first and unquoted) / near misses quoted, spaced, unquoted, as enum symbols, and at the very end of the buffer." % len(sets),
                     "name_sets": len(sets), "tries_validated": ntries, "tries_equal_to_generator_model": gens, "behavioural_probes": nprobe,
                     "traces_validated_against_impl": nprobe, "correspondence_disagreements": len(tie_breaks), "spec_oracle_failures": len(fails)})
     ctx.samples = [{"names": sets[0], "model": out_m[0][:200] if out_m else ""}]
     ctx.notes = ["the numeric word compares of the C code are read as lexicographic compares of 8-byte windows (big-endian load); this reading, and the terminator "
                  "semantics of match_symbol / match_constant, are tied by the behavioural run",
-                 "scope (namespace-qualified enum) tries and union `_type` entries are covered only by the fixed sample in the translator test, not by generated name sets"]
+                 "scope (namespace-qualified enum) tries are covered only by a fixed sample, not by generated name sets; union / union vector fields with their `_type` entries are part of every second name set"]
     finish(ctx, ths)
